@@ -165,7 +165,7 @@ pub fn campaigns(ctx: &Ctx) -> Stats {
     }));
     // ONE operand (or a clone of it) against two or three different partners, one call after the other: a result must
     // not depend on what the same object was broadcast against before (offset or index tables remembered per array)
-    st.merge(ctx.run_indexed("reused-operand-against-several-partners", ctx.tier.pick(60_000, 1_500_000), None, |i| {
+    st.merge(ctx.run_indexed("reused-operand-against-several-partners", ctx.tier.pick(240_000, 1_500_000), None, |i| {
         let z = mix(i ^ 0xC04A ^ ctx.seed.wrapping_mul(0x9E3779B1));
         let a = shapes[(z % ns) as usize].clone();
         let partner = |mut y: u64| -> Vec<usize> {
